@@ -419,6 +419,10 @@ func runFF(r *Result, thorough bool, prop string) {
 			"oracle: always refused, digest unchanged. non-trivial: the forged response is internally consistent"
 	}
 	rng := rand.New(rand.NewSource(r.Seed))
+	if prop == "C12" {
+		// one key, many spellings: the decoders against the byte-level model (distinct signers are counted by value)
+		byteCodecCorrespondence(r, rand.New(rand.NewSource(r.Seed+7919)), thorough)
+	}
 	runs := 3
 	if thorough {
 		runs = 25
